@@ -176,7 +176,13 @@ def sanitize_for(kw, x):
 def default_kwargs_for(h):
     """storage options of generated history h when the check has none of its own: one CSV history in four is opened
     with access mode 'w+' (a fresh file either way; a reopen inside a history always uses the default mode)"""
-    return {"access_mode": "w+"} if h % 8 in (2, 7) else {}
+    if h % 8 in (2, 7):
+        return {"access_mode": "w+"}
+    if h % 16 == 3:
+        return {"delimiter": ";"}                      # csv options belong to every operation, not only to inserts
+    if h % 16 == 6:
+        return {"delimiter": "|", "quotechar": "'"}
+    return {}
 
 
 def run_tie(ck, tf, n_hist, profile, configs=CONFIGS, corpus=(), kwargs_for=None, extra_cases=()):
